@@ -16,6 +16,7 @@ let runners : (string * (string -> string list -> string list list -> (string ->
   ("C05", Drv_c05.run);
   ("C12", Drv_c12.run);
   ("C03", Drv_c03.run);
+  ("C13", Drv_c13.run);
 ]
 
 (* runners whose input is the harness OUTPUT ("<id> <line>" per line, model_input = "impl"):
